@@ -465,7 +465,10 @@ def run_sched(ctx, prop, cov, dist, exe=None):
         case, meta = spec
         if meta["strategy"] == "pf":
             return (case, meta, preempt_at_fputs(exe, case, ctx.scratch, rot=case["seed"] % 7))
-        return (case, meta, sched.run_case(exe, case, ctx.scratch, timeout=60))
+        res = sched.run_case(exe, case, ctx.scratch, timeout=60)
+        if res["crash"] is not None and "TIMEOUT" in res["crash"]:
+            res = sched.run_case(exe, case, ctx.scratch, timeout=240)      # a timeout alone is re-tried once
+        return (case, meta, res)
     with concurrent.futures.ThreadPoolExecutor(max_workers=sched.NWORKERS) as ex:
         runs = list(ex.map(one, specs))
     for lo in range(0, len(runs), 400):
